@@ -124,12 +124,40 @@ fn run_object(ctx: &Ctx, seed: u64, idx: u64, st: &[AtomicU64; 4]) {
         let all = enc.get_encoded_packets(r);
         // per block: the block encoders' own answers
         let per: Vec<(Vec<EncodingPacket>, Vec<EncodingPacket>)> = enc.get_block_encoders().iter().map(|b| (b.source_packets(), b.repair_packets(0, r))).collect();
-        (all, per)
+        // every block once more as a stand-alone encoder of the same bytes, built on a fresh thread in
+        // ascending block-size order: whatever the object encoder computed before must not matter
+        let standalone_differs = if r > 0 && idx % 2 == 0 {
+            let cfg = s.cfg();
+            let mut order: Vec<usize> = (0..s.Z).collect();
+            order.sort_by_key(|&z| ks[z]);
+            let blocks: Vec<Vec<u8>> = (0..s.Z).map(|z| block_bytes(&data, &s, z)).collect();
+            let alone: Vec<(usize, Vec<EncodingPacket>)> = std::thread::scope(|sc| {
+                sc.spawn(|| {
+                    order
+                        .iter()
+                        .map(|&z| {
+                            // block_bytes = the block's K*T bytes of the object (zero padded at the very end)
+                            let b = SourceBlockEncoder::new(z as u8, &cfg, &blocks[z]);
+                            (z, b.repair_packets(0, r))
+                        })
+                        .collect()
+                })
+                .join()
+                .unwrap()
+            });
+            alone.into_iter().find(|(z, rp)| *rp != per[*z].1).map(|(z, _)| z)
+        } else {
+            None
+        };
+        (all, per, standalone_differs)
     });
     st[3].fetch_add(1, Relaxed);
     match got {
         Err(m) => ctx.violation(format!("C18 object-panic idx={idx}"), format!("{:?}: panicked: {}", s, short(&m, 100)), case),
-        Ok((all, per)) => {
+        Ok((all, per, standalone_differs)) => {
+            if let Some(z) = standalone_differs {
+                ctx.violation(format!("C18 object-vs-standalone idx={idx}"), format!("{:?}: the repair packets of block {z} (K={}) inside Encoder differ from those of a stand-alone SourceBlockEncoder built for the same bytes on a fresh thread", s, ks[z]), case.clone());
+            }
             let mut want: Vec<(u8, u32)> = vec![];
             for (z, &K) in ks.iter().enumerate() {
                 for e in 0..(K as u32 + r) {
